@@ -317,8 +317,8 @@ function renameParams(d, f) {
 export function basePrograms({ computed = true } = {}) {
   const out = [];
   const f1 = f1Depth1();
-  out.push(...packPrograms(f1, 25, "F1d1").filter((_, i) => TIER === "thorough" || i % 3 === SEED % 3));
-  if (computed) out.push(...f2().filter((_, i) => TIER === "thorough" || i % 3 === SEED % 3));
+  out.push(...packPrograms(f1, 25, "F1d1"));
+  if (computed) out.push(...f2());
   out.push(...f3());
   out.push(...extraBases());
   return out;
